@@ -3,7 +3,7 @@
 //! the filler-file relation (C07).  DESIGN.md §7.2–§7.4.
 
 use super::batch::{RunOut, Scenario, Tier};
-use super::dbsnap::{all_defs, all_usages, map_snap, rel};
+use super::dbsnap::{all_defs, all_usages, map_snap, rel, MapSnap as MapSnapT};
 use super::observe::{snapshot_opts, Snapshot};
 use super::pytext::{break_syntax, gen_items, names_pool, render, GenOpts, Item};
 use super::scen_resolve::abort_to_violation;
@@ -31,6 +31,9 @@ pub enum HOp {
     Close { file: String },
     /// analyse n filler files (cache pressure; eviction beyond 2000 cached files)
     Fill { n: usize },
+    /// didClose of a document whose buffer differs from the file on disk (unsaved changes are discarded); from then on only
+    /// the cache-transparency check applies (no statement says what a cold twin of that history is)
+    CloseUnsaved { file: String },
 }
 
 #[derive(Clone, Debug, Serialize, Deserialize)]
@@ -72,7 +75,12 @@ pub fn next_version(rng: &mut Rng, spec: &WsSpec, file: &str, current: &str, las
     let is_test = pf.items.iter().any(|i| matches!(i, Item::Test(_)));
     let imports: Vec<Item> = pf.items.iter().filter(|i| matches!(i, Item::Star { .. } | Item::Import { .. } | Item::Plugins { .. })).cloned().collect();
     let o = GenOpts { in_class: false, alias: rng.chance(200), ..GenOpts::default() };
-    let orphan = super::ws::join_rel(&super::ws::dir_of(file), "orphan_fixtures.py");
+    let fdir = super::ws::dir_of(file);
+    let (orphan, orphan_mod) = if spec.file(&super::ws::join_rel(&fdir, "orph/orphan_fixtures.py")).is_some() {
+        (super::ws::join_rel(&fdir, "orph/orphan_fixtures.py"), "orph.orphan_fixtures")
+    } else {
+        (super::ws::join_rel(&fdir, "orphan_fixtures.py"), "orphan_fixtures")
+    };
     let pick = if file.ends_with("conftest.py") && spec.file(&orphan).is_some() && !current.contains("orphan_fixtures") && rng.chance(300) { 7 } else { rng.below(12) };
     match pick {
         0 => current.to_string(),                 // identical resend
@@ -86,9 +94,9 @@ pub fn next_version(rng: &mut Rng, spec: &WsSpec, file: &str, current: &str, las
             all.extend(items);
             render(&all).text
         }
-        7 if file.ends_with("conftest.py") && spec.file(&super::ws::join_rel(&super::ws::dir_of(file), "orphan_fixtures.py")).is_some() => {
+        7 if file.ends_with("conftest.py") && spec.file(&orphan).is_some() => {
             // the edit starts importing a module nobody imported so far (the scan never analysed it)
-            let mut all = vec![Item::Star { module: if rng.chance(500) { ".orphan_fixtures".into() } else { "orphan_fixtures".into() }, target: Some(super::ws::join_rel(&super::ws::dir_of(file), "orphan_fixtures.py")) }];
+            let mut all = vec![Item::Star { module: if rng.chance(500) { format!(".{}", orphan_mod) } else { orphan_mod.to_string() }, target: Some(orphan.clone()) }];
             all.extend(pf.items.iter().cloned());
             render(&all).text
         }
@@ -145,7 +153,7 @@ impl Scenario for History {
             _ => rng.chance(350),
         };
         let mut scan_first = false;
-        let spec = if self.prop == "C07" && rng.chance(160) {
+        let mut spec = if self.prop == "C07" && rng.chance(160) {
             if rng.chance(600) { super::ws::ring_ws(&mut rng) } else { super::ws::diamond_ws(&mut rng) }
         } else if self.prop == "C07" && rng.chance(250) {
             // a workspace with a venv (third-party plugin, in-workspace editable plugin): built by the real scan
@@ -162,7 +170,7 @@ impl Scenario for History {
         let names = names_pool(4);
         // (the module nobody imports is never edited directly: whether the index holds its on-disk version then depends on
         // whether an import was followed before or after the editor opened it - the statement has no answer for that)
-        let files: Vec<String> = spec.files.iter().filter(|f| f.rel.ends_with(".py") && !f.rel.ends_with("__init__.py") && !f.rel.ends_with("orphan_fixtures.py")).map(|f| f.rel.clone()).collect();
+        let files: Vec<String> = spec.files.iter().filter(|f| f.rel.ends_with(".py") && !f.rel.ends_with("__init__.py") && !f.rel.ends_with("orphan_fixtures.py") && !f.rel.ends_with("deep_orphan.py")).map(|f| f.rel.clone()).collect();
         let mut cur: BTreeMap<String, String> = spec.files.iter().map(|f| (f.rel.clone(), render(&f.items).text)).collect();
         let disk = cur.clone();
         let mut last_valid = cur.clone();
@@ -220,6 +228,16 @@ impl Scenario for History {
                 if rng.chance(600) {
                     let at = rng.below(ops.len() + 1);
                     ops.insert(at, HOp::OpenClose { file: lib.rel.clone() });
+                }
+            }
+            // a conftest that does not parse ON DISK, repaired in the editor, queried, then closed without saving
+            if !scan_first && rng.chance(120) {
+                if let Some(cf) = spec.files.iter().find(|f| f.rel.ends_with("conftest.py") && f.items.iter().any(|i| matches!(i, Item::Star { .. } | Item::Import { .. } | Item::Plugins { .. }))).map(|f| f.rel.clone()) {
+                    spec.extra.push((cf.clone(), "import pytest\nfrom broken_on_disk import (\n".to_string()));
+                    ops.retain(|o| !matches!(o, HOp::OpenClose { file } | HOp::Close { file } if *file == cf));
+                    ops.push(HOp::Analyze { file: cf.clone(), text: render(&spec.file(&cf).unwrap().items).text });
+                    ops.push(HOp::Query);
+                    ops.push(HOp::CloseUnsaved { file: cf });
                 }
             }
             ops.push(HOp::Query);
@@ -420,7 +438,14 @@ fn run_history(prop: &str, spec: &WsSpec, ops: &[HOp], root: &Path, scan_first: 
     let live = Arc::new(FixtureDatabase::new());
     // the analyses performed so far, in order: (file, text)
     let mut log: Vec<(String, String)> = vec![];
-    let disk: BTreeMap<String, String> = spec.files.iter().map(|f| (f.rel.clone(), render(&f.items).text)).collect();
+    let mut disk: BTreeMap<String, String> = spec.files.iter().map(|f| (f.rel.clone(), render(&f.items).text)).collect();
+    // files whose on-disk text was overwritten by the generator (e.g. made unparsable)
+    for (f, t) in &spec.extra {
+        if disk.contains_key(f) {
+            disk.insert(f.clone(), t.clone());
+        }
+    }
+    let mut unsaved_close = false;
     let mut cur: BTreeMap<String, String> = BTreeMap::new();
     if scan_first {
         live.scan_workspace(root);
@@ -430,6 +455,7 @@ fn run_history(prop: &str, spec: &WsSpec, ops: &[HOp], root: &Path, scan_first: 
         res.count("fault.index_built_by_real_scan_with_venv");
     } else {
         for (f, t) in initial_order(spec) {
+            let t = disk.get(&f).cloned().unwrap_or(t);
             live.analyze_file(root.join(&f), &t);
             cur.insert(f.clone(), t.clone());
             log.push((f, t));
@@ -495,6 +521,12 @@ fn run_history(prop: &str, spec: &WsSpec, ops: &[HOp], root: &Path, scan_first: 
                 disturbed = true;
                 res.count("fault.close_unmodified");
             }
+            HOp::CloseUnsaved { file } => {
+                live.document_closed(&root.join(file));
+                live.cleanup_file_cache(&root.join(file));
+                unsaved_close = true;
+                res.count("fault.close_with_unsaved_changes");
+            }
             HOp::Fill { n } => {
                 // (documents the history edited are open in the editor: their buffers may differ from the files on disk)
                 if cur.iter().any(|(f, t)| disk.get(f) != Some(t)) {
@@ -529,7 +561,12 @@ fn run_history(prop: &str, spec: &WsSpec, ops: &[HOp], root: &Path, scan_first: 
                     if queried_before_analysis || disturbed {
                         res.nontrivial = true;
                     }
-                    check_cold_twin(&mut res, &live, &log, root, step, spec, scan_first, &reopened);
+                    if !unsaved_close {
+                        check_cold_twin(&mut res, &live, &log, root, step, spec, scan_first, &reopened);
+                    }
+                    if step + 1 == ops.len() {
+                        check_cache_transparency(&mut res, &live, root, step);
+                    }
                 }
             }
         }
@@ -674,6 +711,27 @@ fn check_refs_relation(res: &mut HRes, live: &Arc<FixtureDatabase>, cur: &BTreeM
 }
 
 /// C07: cold twin = the same analyses (same order, same texts) with no queries, closes, fillers.
+/// "Warm caches answer like cold caches", literally: drop every derived cache entry of the long-lived index (per-file views,
+/// import sets, cycles, line tables, and the parsed ASTs of documents that are not open) and ask everything again.
+fn check_cache_transparency(res: &mut HRes, live: &Arc<FixtureDatabase>, root: &Path, step: usize) {
+    let files: Vec<PathBuf> = live.file_definitions.iter().map(|e| e.key().clone()).chain(live.file_cache.iter().map(|e| e.key().clone())).collect::<BTreeSet<_>>().into_iter().filter(|p| !rel(root, p).contains("zz_fill/")).collect();
+    let before = super::observe::snapshot_files(live, root, &files, false, false);
+    live.available_fixtures_cache.clear();
+    live.imported_fixtures_cache.clear();
+    live.cycle_cache.clear();
+    live.line_index_cache.clear();
+    // (the AST kept for an OPEN document that does not parse is state, not a cache: it stands for its last valid version)
+    let drop_ast: Vec<PathBuf> = live.ast_cache.iter().map(|e| e.key().clone()).filter(|p| !live.open_documents.contains_key(p)).collect();
+    for p in drop_ast {
+        live.ast_cache.remove(&p);
+    }
+    let after = super::observe::snapshot_files(live, root, &files, false, false);
+    for (key, x, y) in before.all_diffs(&after) {
+        res.violate("answer-depends-on-a-cache-entry", format!("at step {}: `{}` answers {:?} with the caches as they are and {:?} once every derived cache entry is dropped", step, key, x, y));
+    }
+    res.count("probe.cache_transparency_checked");
+}
+
 fn check_cold_twin(res: &mut HRes, live: &Arc<FixtureDatabase>, log: &[(String, String)], root: &Path, step: usize, spec: &WsSpec, scan_first: bool, reopened: &BTreeSet<String>) {
     let cold = Arc::new(FixtureDatabase::new());
     if scan_first {
@@ -720,6 +778,19 @@ fn check_cold_twin(res: &mut HRes, live: &Arc<FixtureDatabase>, log: &[(String, 
         })
     };
     // which conftests lost their cache entry (close / eviction)?
+    // the index itself (as multisets): queries, closes of unmodified documents and evictions do not add, drop or duplicate records
+    {
+        let strip = |m: MapSnapT| -> MapSnapT {
+            let keep = |v: Vec<String>| -> Vec<String> { v.into_iter().filter(|l| !l.contains("zz_fill/")).collect() };
+            MapSnapT { definitions: keep(m.definitions), file_definitions: keep(m.file_definitions), usages: keep(m.usages), usage_by_fixture: keep(m.usage_by_fixture), imports: keep(m.imports), undeclared: vec![], empties: m.empties }
+        };
+        let (ml, mc) = (strip(map_snap(live, root)), strip(map_snap(&cold, root)));
+        if let Some(d) = ml.diff(&mc, false) {
+            let library_file_indexed = live.file_definitions.iter().any(|e| rel(root, e.key()).contains("/otherlib/"));
+            let class = if library_file_indexed { "RC-OPENED-LIBRARY-FILE-LEAKS" } else { "warm-index-differs" };
+            res.violate(class, format!("at step {}: the index differs from the cold twin's: {}", step, d));
+        }
+    }
     let uncached_conftest = spec.files.iter().any(|f| f.rel.ends_with("conftest.py") && !live.file_cache.contains_key(&root.join(&f.rel)));
     let last_analysis_recorded_no_definition = log.last().map(|(_, t)| !t.contains("@pytest.fixture") && !t.contains("pytest.fixture()(")).unwrap_or(false);
     for (key, x, y) in sa.all_diffs(&sb) {
